@@ -45,16 +45,17 @@ open OdxVerif.Bits OdxVerif.OdxM
     the keys only if `supplied`) returns a PDU without an overlap warning, strict `decode` of that PDU returns the
     completed dictionary: an entry for every parameter, every key with its bit length.  (`hend`: as in
     `C01_roundtrip_nested`, for a last component that needs the end of the PDU.  Size bound = the model's fuel.) -/
-theorem C01_roundtrip_lengthkey (W : String → Option Int) (its : List KItem) (hok : ∀ it ∈ its, it.ok)
+theorem C01_roundtrip_lengthkey (W : String → Option Int) (its : List KItem) (hok : ∀ it ∈ its, it.ok W)
     (hneed : Comps.need (KItems.comps its) + 2 ≤ modelFuel) (hn : Comps.namesOk (KItems.comps its))
-    (hlast : Comps.eopLast (KItems.comps its)) (hrefs : KItems.refsOk W [] [] its) (hcov : KItems.covered its)
+    (hlast : Comps.eopLast (KItems.comps its)) (hap : KItems.apart its) (hrefs : KItems.refsOk W [] [] its)
+    (hcov : KItems.covered its)
     (trig : Option Bytes) (pdu : Bytes)
     (hend : Comps.anyEop (KItems.comps its) = true → ((Comps.pair (KItems.comps its)).enc {}).cursorByte = pdu.length)
     (henc : encodeMessage none (Comps.toParams (KItems.comps its)) (.dict (Comps.values (KItems.comps its))) trig true
       = .ok (pdu, 0)) :
     ∃ cursor, decodeMessage none (Comps.toParams (KItems.comps its)) pdu true =
       .ok (.dict (Comps.pair (KItems.comps its)).val, cursor) :=
-  kitems_roundtrip_msg W its hneed hok hlast hn hrefs hcov trig pdu hend henc
+  kitems_roundtrip_msg W its hneed hok hlast hn hap hrefs hcov trig pdu hend henc
 
 /-! ### non-vacuity
     request = [ sid (CODED-CONST 0x2E, omitted);
@@ -73,9 +74,9 @@ def exStructKids : List Comp :=
   [Comp.ofObjValue ⟨"a", none, none, none, true, 8, .uint32⟩ (.int 7), Comp.ofObjValue ⟨"b", none, none, none, true, 16, .int32⟩ (.int 0x1234)]
 def exStruct : Comp := Comp.ofValue "st" none (DComp.struct exStructKids)
 def exKeyItems (supplied : Bool) : List KItem :=
-  [.comp (Comp.ofObjConst ⟨"sid", none, none, none, true, 8, .uint32⟩ (.int 0x2E) false),
-   .key exKeyObj 24 supplied, .key exKeyObjN 16 true, .user exUser, .ouser exObjUser (.int 5) "n", .comp exStruct,
-   .comp (Comp.ofObjValue ⟨"y", none, none, none, true, 8, .uint32⟩ (.int 0x77))]
+  [.comp (Comp.ofObjConst ⟨"sid", none, none, none, true, 8, .uint32⟩ (.int 0x2E) false) [],
+   .key exKeyObj 24 supplied, .key exKeyObjN 16 true, .user exUser, .ouser exObjUser (.int 5) "n", .comp exStruct [],
+   .comp (Comp.ofObjValue ⟨"y", none, none, none, true, 8, .uint32⟩ (.int 0x77)) []]
 def exW : String → Option Int := fun n => if n = "k" then some 24 else if n = "n" then some 16 else none
 
 /-- the parameters: the keys are LENGTH-KEY parameters, the diag-coded types of `d` and `w` refer to them by name -/
@@ -131,25 +132,25 @@ theorem exStruct_ok : exStruct.Ok ∧ exStruct.EndOk ∧ exStruct.KeyFree := by
   exact Comp.ofValue_endOk _ _ _ (DComp.struct_endOk _ hokAll ⟨Comp.ofObjValue_endOk _ _, Comp.ofObjValue_endOk _ _, trivial⟩
     ⟨rfl, trivial⟩)
 
-theorem exKeyItems_ok (b : Bool) : ∀ it ∈ exKeyItems b, it.ok := by
+theorem exKeyItems_ok (b : Bool) : ∀ it ∈ exKeyItems b, it.ok exW := by
   intro it hit
   simp only [exKeyItems, List.mem_cons, List.mem_nil_iff, or_false] at hit
   rcases hit with rfl | rfl | rfl | rfl | rfl | rfl | rfl
   · have ho : (⟨"sid", none, none, none, true, 8, .uint32⟩ : Obj).ok := by simp [Obj.ok, Obj.encOk, Obj.sizeOk]
     have hr : (⟨"sid", none, none, none, true, 8, .uint32⟩ : Obj).inRange (.int 0x2E) := by simp [Obj.inRange]
-    exact ⟨Comp.ofObjConst_ok _ _ _ ho hr, Comp.ofObjConst_endOk _ _ _, Comp.ofObjConst_keyFree _ _ _ ho hr⟩
+    exact Comp.KOk.ofKeyFree _ _ (Comp.ofObjConst_ok _ _ _ ho hr) (Comp.ofObjConst_endOk _ _ _) (Comp.ofObjConst_keyFree _ _ _ ho hr)
   · exact ⟨⟨rfl, by simp [exKeyObj, Obj.ok, Obj.encOk, Obj.sizeOk]⟩, by simp [exKeyObj, Obj.inRange]⟩
   · exact ⟨⟨rfl, by simp [exKeyObjN, Obj.ok, Obj.encOk, Obj.sizeOk]⟩, by simp [exKeyObjN, Obj.inRange]⟩
   · refine ⟨⟨allBytes_of_all _ (by decide), Or.inl ⟨rfl, rfl, Or.inl rfl⟩⟩, rfl⟩
   · exact ⟨by simp [exObjUser, Obj.ok, Obj.encOk, Obj.sizeOk], by simp [exObjUser, Obj.inRange]⟩
-  · exact exStruct_ok
+  · exact Comp.KOk.ofKeyFree _ _ exStruct_ok.1 exStruct_ok.2.1 exStruct_ok.2.2
   · have ho : (⟨"y", none, none, none, true, 8, .uint32⟩ : Obj).ok := by simp [Obj.ok, Obj.encOk, Obj.sizeOk]
     have hr : (⟨"y", none, none, none, true, 8, .uint32⟩ : Obj).inRange (.int 0x77) := by simp [Obj.inRange]
-    exact ⟨Comp.ofObjValue_ok _ _ ho hr, Comp.ofObjValue_endOk _ _, Comp.ofObjValue_keyFree _ _ ho hr⟩
+    exact Comp.KOk.ofKeyFree _ _ (Comp.ofObjValue_ok _ _ ho hr) (Comp.ofObjValue_endOk _ _) (Comp.ofObjValue_keyFree _ _ ho hr)
 
 theorem exKeyItems_side (b : Bool) : Comps.namesOk (KItems.comps (exKeyItems b)) ∧ Comps.eopLast (KItems.comps (exKeyItems b)) ∧
-    KItems.refsOk exW [] [] (exKeyItems b) ∧ KItems.covered (exKeyItems b) := by
-  refine ⟨?_, ⟨rfl, rfl, rfl, rfl, rfl, rfl, trivial⟩, ?_, ?_⟩
+    KItems.refsOk exW [] [] (exKeyItems b) ∧ KItems.covered (exKeyItems b) ∧ KItems.apart (exKeyItems b) := by
+  refine ⟨?_, ⟨rfl, rfl, rfl, rfl, rfl, rfl, trivial⟩, ?_, ?_, ?_⟩
   · simp [Comps.namesOk, KItems.comps, exKeyItems, KItem.toComp, Comp.name, Param.name, Comp.ofObjConst, Obj.toConstParam,
       Comp.ofObjValue, Obj.toParam, Obj.toKeyParam, Obj.toPLParam, PLUser.toParam, exKeyObj, exKeyObjN, exUser, exObjUser,
       exStruct, Comp.ofValue]
@@ -160,6 +161,7 @@ theorem exKeyItems_side (b : Bool) : Comps.namesOk (KItems.comps (exKeyItems b))
     rcases hm with ⟨rfl, _, _⟩ | ⟨_, _, h⟩
     · exact ⟨.user exUser, by simp [exKeyItems], _, rfl⟩
     · cases h
+  · simp [KItems.apart, exKeyItems, KItem.touches, exKeyObj, exKeyObjN]
 
 theorem Except.eq_ok_of_toOption' {ε α : Type} {e : Except ε α} {a : α} (h : e.toOption = some a) : e = .ok a := by
   cases e with
@@ -170,13 +172,15 @@ theorem Except.eq_ok_of_toOption' {ε α : Type} {e : Except ε α} {a : α} (h 
 example : ∃ cursor, decodeMessage none (Comps.toParams (KItems.comps (exKeyItems false))) exKeyPdu true
     = .ok (.dict (Comps.pair (KItems.comps (exKeyItems false))).val, cursor) :=
   C01_roundtrip_lengthkey exW (exKeyItems false) (exKeyItems_ok false) (by decide) (exKeyItems_side false).1
-    (exKeyItems_side false).2.1 (exKeyItems_side false).2.2.1 (exKeyItems_side false).2.2.2 none _ (fun h => by cases h)
+    (exKeyItems_side false).2.1 (exKeyItems_side false).2.2.2.2 (exKeyItems_side false).2.2.1 (exKeyItems_side false).2.2.2.1 none _
+    (fun h => by cases h)
     (Except.eq_ok_of_toOption' (by decide +kernel))
 /-- … and key `k` specified -/
 example : ∃ cursor, decodeMessage none (Comps.toParams (KItems.comps (exKeyItems true))) exKeyPdu true
     = .ok (.dict (Comps.pair (KItems.comps (exKeyItems true))).val, cursor) :=
   C01_roundtrip_lengthkey exW (exKeyItems true) (exKeyItems_ok true) (by decide) (exKeyItems_side true).1
-    (exKeyItems_side true).2.1 (exKeyItems_side true).2.2.1 (exKeyItems_side true).2.2.2 none _ (fun h => by cases h)
+    (exKeyItems_side true).2.1 (exKeyItems_side true).2.2.2.2 (exKeyItems_side true).2.2.1 (exKeyItems_side true).2.2.2.1 none _
+    (fun h => by cases h)
     (Except.eq_ok_of_toOption' (by decide +kernel))
 
 end OdxVerif.Codec
